@@ -452,6 +452,43 @@ func c03CheckDominance(x *Ctx, sc *c03Scen, w *World, p Probe, got Outcome) {
 		return true
 	}
 	selFull := FullPath(selSvc.Root, sel.Path)
+	// root paths first: the statement ranks them on their own. A root that matches the URL as a prefix
+	// and continues the selected root (the selected one is its own prefix), or that has a literal where
+	// the selected root has a variable (same length, same shape otherwise), should have claimed the request.
+	st := c03Tokens(selSvc.Root)
+	for _, sp := range sc.Svcs {
+		if sp.ID == selSvc.ID {
+			continue
+		}
+		rt := c03Tokens(sp.Root)
+		if len(rt) > len(ut) || len(rt) < len(st) {
+			continue
+		}
+		matchesURL := true
+		for i := range rt {
+			if strings.HasSuffix(rt[i], ":*}") || !c03SegMatch(rt[i], ut[i]) {
+				matchesURL = false
+			}
+		}
+		if !matchesURL {
+			continue
+		}
+		if len(rt) > len(st) {
+			prefix := true
+			for i := range st {
+				if st[i] != rt[i] {
+					prefix = false
+				}
+			}
+			if prefix {
+				x.Violate("less-specific-selected", "GET %s was answered by the service on root %q although the longer root %q matches the URL too and continues it (a longer matching root beats its own prefix)", p.Path, selSvc.Root, sp.Root)
+				return
+			}
+		} else if c03Dominates(rt, st) {
+			x.Violate("less-specific-selected", "GET %s was answered by the service on root %q although root %q matches the URL too and has a literal where the selected root has a variable", p.Path, selSvc.Root, sp.Root)
+			return
+		}
+	}
 	for _, sp := range sc.Svcs {
 		for _, r := range sp.Routes {
 			if r.ID == selID || r.Method != "GET" {
